@@ -69,6 +69,7 @@ def fam_events(rng, n, thorough=False):
         nfeed = rng.randint(3, 25)
         faulted = set()
         inst = {e: 1 for e in range(k)}
+        ewd = [rng.random() < 0.5 for _ in range(k)]     # transports that hand over the last bytes together with the error
         for j in range(nfeed):
             ep = rng.randrange(k)
             kind = rng.choice(kinds)
@@ -87,6 +88,13 @@ def fam_events(rng, n, thorough=False):
                 inst[ep] += 1
                 steps.append({"op": "wait_close", "ep": ep, "n": inst[ep] - 1})
                 steps.append({"op": "wait_open", "ep": ep, "n": inst[ep]})
+        if k >= 2 and i % 2 == 0:
+            # the same message type arriving on several channels at the same instant (the channels share the codec)
+            items = []
+            for rep in range(12):
+                for ep in range(k):
+                    items.append({"ep": ep, "item": {"kind": "valid", "tag": t.next()}})
+            steps.append({"op": "burst", "items": items})
         if closing_window:
             # Close while frames are still queued and the consumer keeps receiving
             for j in range(rng.randint(2, 6)):
@@ -94,7 +102,8 @@ def fam_events(rng, n, thorough=False):
             steps.append({"op": "close", "from": rng.choice(["main", "async"])})
         else:
             steps.append({"op": "quiesce"})
-        out.append({"name": "events/%d" % i, "conf": c, "endpoints": customs(k), "steps": steps})
+        out.append({"name": "events/%d" % i, "conf": c,
+                    "endpoints": [{"kind": "custom", "err_with_data": ewd[e]} for e in range(k)], "steps": steps})
     return out
 
 
@@ -175,7 +184,8 @@ def fam_fanout(rng, n, thorough=False):
         ng = rng.randint(2, 4)
         keyed = rng.random() < 0.15
         ver = rng.choice([2, 2, 1]) if not keyed else 2
-        c = conf(version=ver, outkey=KEY if keyed else [], comp=rng.choice([0, 7]), sys=rng.choice([1, 10, 255]))
+        c = conf(version=ver, outkey=KEY if keyed else [], comp=rng.choice([0, 7]), sys=rng.choice([1, 10, 255]),
+                 reuse_msgs=(i % 3 == 1))     # a third of the scenarios: each writer goroutine reuses one message struct
         steps = opens(k)
         nw = rng.randint(20, 200 if thorough else 90)
         if keyed:
@@ -280,6 +290,12 @@ def fam_close(rng, n):
         steps += [{"op": "wait_held", "point": "prov.newChannel", "ep": 0}, {"op": "close", "from": "async"}, {"op": "sleep", "ms": 5},
                   {"op": "release", "point": "prov.newChannel", "ep": 0}, {"op": "wait_closed"}]
         out.append({"name": "close/unregistered_connection_%s" % kind, "conf": conf(), "endpoints": [{"kind": kind}], "steps": steps})
+    # a node that has been up for more than 30 s (the period of the stream-request cleaner) with no sender known yet,
+    # then the first ArduPilot heartbeat, then Close (one long scenario; it runs in parallel with the others)
+    t = Tags(46800)
+    out.append({"name": "close/after_cleaner_tick", "conf": conf(sr_enable=True), "endpoints": customs(1), "steps": opens(1) + [
+        {"op": "sleep", "ms": 31000}, feed(0, "hb", t.next(), sys=3, comp=1, autopilot=3), {"op": "sleep", "ms": 200},
+        write(1, "MsgAll", t.next()), {"op": "close", "from": "main"}, {"op": "wait_closed"}]})
     # Close called from inside the event loop
     t = Tags(47000)
     out.append({"name": "close/from_event_loop", "conf": conf(), "endpoints": customs(2), "steps": opens(2) + [
@@ -360,6 +376,23 @@ def fam_stall(rng, positions):
                 steps.append(write(1, "MsgAll", t.next(), sync=True))
             steps.append({"op": "quiesce", "ms": 1500})
             out.append({"name": "stall/unencodable_%s_v%d_at_%d" % (bad, v, pos), "conf": conf(version=v), "endpoints": customs(2), "steps": steps})
+    # many consecutive failures (12 unencodable items / 12 failing transport writes), then valid writes
+    for v, kind in [(2, "id_outside"), (1, "v1_big"), (2, "failn")]:
+        t = Tags(68000 + 100 * v + (50 if kind == "failn" else 0))
+        steps = opens(2) + [write(1, "MsgAll", t.next(), sync=True)]
+        if kind == "failn":
+            steps.append({"op": "twrite_mode", "ep": 0, "mode": "failn", "at": 12})
+            for j in range(12):
+                steps.append(write(1, "MsgAll", t.next(), sync=True))
+                steps.append({"op": "sleep", "ms": 2})
+        else:
+            for j in range(12):
+                steps.append(write(1, "MsgAll", t.next(), sync=True, bad=kind))
+        steps.append({"op": "sleep", "ms": 100})
+        for j in range(5):
+            steps.append(write(1, "MsgAll", t.next(), sync=True))
+        steps.append({"op": "quiesce", "ms": 1500})
+        out.append({"name": "stall/twelve_consecutive_%s_v%d" % (kind, v), "conf": conf(version=v), "endpoints": customs(2), "steps": steps})
     # no dialect at all: every message write is unencodable for the link
     t = Tags(69000)
     steps = opens(1) + [write(1, "MsgAll", t.next(), sync=True, raw=False, bad="id_outside"), {"op": "sleep", "ms": 100},
@@ -421,6 +454,14 @@ def fam_faults(rng, thorough=False):
                               {"op": "read_err", "ep": 0, "peer": -1}, {"op": "wait_close", "ep": 0, "n": 1},
                               {"op": "listener_mode", "ep": 0, "mode": "refuse"}, {"op": "sleep", "ms": 3 * rd},
                               {"op": "listener_mode", "ep": 0, "mode": "accept"}, {"op": "wait_open", "ep": 0, "n": 2}]})
+    # connection attempts that time out (the server never answers the SYN) for several dial timeouts, then the server returns
+    out.append({"name": "faults/tcp_client_dial_timeouts", "conf": conf(reconnect_ms=50, read_ms=100),
+                "endpoints": [{"kind": "tcp_client", "lmode": "hang"}],
+                "steps": [{"op": "sleep", "ms": 1200}, {"op": "listener_mode", "ep": 0, "mode": "accept"},
+                          {"op": "wait_open", "ep": 0, "n": 1}, {"op": "sleep", "ms": 30},
+                          {"op": "read_err", "ep": 0, "peer": -1}, {"op": "wait_close", "ep": 0, "n": 1},
+                          {"op": "listener_mode", "ep": 0, "mode": "hang"}, {"op": "sleep", "ms": 1200},
+                          {"op": "listener_mode", "ep": 0, "mode": "accept"}, {"op": "wait_open", "ep": 0, "n": 2}]})
     # serial: the opener fails n times, then works; then the device fails and reopens
     for fails in ([0, 2] if not thorough else [0, 1, 2, 4]):
         t = Tags(74000)
@@ -457,6 +498,15 @@ def fam_auto(rng, n, thorough=False):
                      hb_autopilot=rng.choice([0, 3, 12]), skip_hb_rate=False, comp=rng.choice([0, 5]), version=rng.choice([1, 2]))
             steps = opens(k) + [{"op": "sleep", "ms": period * 12}]
             out.append({"name": "auto/hb_%s_%s_%d" % (dialect, "off" if disable else "on", period), "conf": c, "endpoints": customs(k), "steps": steps})
+    # "not repeated for that sender within 30 seconds" across the 30 s cleaner tick: a sender first seen at node age 25 s
+    # keeps sending one heartbeat per second for 13 s (one long scenario; it runs in parallel with the others)
+    t = Tags(89000)
+    steps = opens(1) + [{"op": "sleep", "ms": 25000}]
+    for h in range(13):
+        steps.append(feed(0, "hb", t.next(), sys=2, comp=1, autopilot=3))
+        steps.append({"op": "sleep", "ms": 1000})
+    steps.append({"op": "quiesce", "ms": 1000})
+    out.append({"name": "auto/sr_across_cleaner_tick", "conf": conf(sr_enable=True), "endpoints": customs(1), "steps": steps})
     # stream requests: histories of heartbeats from many sources interleaved with other traffic
     for j in range(n):
         t = Tags(90000 + 1000 * j)
@@ -523,6 +573,9 @@ def fam_race(rng, n):
                     items.append({"ep": ep, "item": {"kind": "hb", "tag": t.next(), "sys": 1 + (j * 8 + r + ep) % 60,
                                                      "comp": 1 + (r + j) % 3, "autopilot": 3}})
             steps.append({"op": "burst", "items": items})
+            # the same (truncated) message type decoded on all channels at once
+            steps.append({"op": "burst", "items": [{"ep": ep, "item": {"kind": "valid", "tag": t.next()}}
+                                                   for r2 in range(6) for ep in range(k)]})
             if j % 3 == 0:
                 steps.append(write(1 + j % 3, rng.choice(KINDS), t.next(), ep=rng.randrange(k)))
         steps += [{"op": "wait_writes"}, {"op": "quiesce", "ms": 1500}]
